@@ -645,6 +645,14 @@ fn run_fs(sc: &Scenario, log: &mut Log, rep: &mut Report) -> Option<Violation> {
     let mut b = turmoil::Builder::new();
     b.rng_seed(sc.seed).epoch(std::time::UNIX_EPOCH + std::time::Duration::from_secs(1_600_000_000));
     b.fs().corruption_probability(1.0);
+    // every other run creates the test's barrier before the simulation is built
+    let early: Option<Barrier<FsCorruption>> = if !sc.fs_inside && sc.seed % 2 == 0 {
+        let m = sc.fs_match;
+        rep.probes.inc("fs_barrier_created_before_the_simulation_was_built");
+        Some(Barrier::new(move |c: &FsCorruption| m && c.path.ends_with("data")))
+    } else {
+        None
+    };
     let mut sim = b.build();
     let reads = sc.fs_reads;
     let done = Rc::new(Cell::new(0u32));
@@ -658,7 +666,9 @@ fn run_fs(sc: &Scenario, log: &mut Log, rep: &mut Report) -> Option<Violation> {
     if via_handle {
         rep.probes.inc("fs_reads_under_an_entered_fs_handle_on_the_simulation_thread");
     }
-    if !inside {
+    if let Some(e) = early {
+        *bcell.borrow_mut() = Some(e);
+    } else if !inside {
         *bcell.borrow_mut() = Some(Barrier::new(move |c: &FsCorruption| matches && c.path.ends_with("data")));
     }
     let bcell2 = bcell.clone();
@@ -805,6 +815,19 @@ pub fn child(json: &str) -> i32 {
     0
 }
 
+/// What the clean-up guard of the reading code reports when it is dropped — on the normal path or while a
+/// panic injected by a barrier unwinds.
+#[derive(Clone, Debug)]
+struct CleanupEv(u32);
+
+struct Cleanup(u32);
+
+impl Drop for Cleanup {
+    fn drop(&mut self) {
+        trigger_noop(CleanupEv(self.0));
+    }
+}
+
 fn fs_panic_here(sc: &Scenario) -> Option<Violation> {
     use turmoil::fs::shim::std::fs as sfs;
     use turmoil::fs::FsCorruption;
@@ -823,6 +846,8 @@ fn fs_panic_here(sc: &Scenario) -> Option<Violation> {
         *bcell.borrow_mut() = Some(Barrier::build(reaction(sc.fs_reads), move |c: &FsCorruption| matches && c.path.ends_with("data")));
     }
     let (bcell2, inside, style, react_no) = (bcell.clone(), sc.fs_inside, sc.fs_burst, sc.fs_reads);
+    // a Noop barrier of the test watches the clean-up guard of the reading code
+    let mut cleanup_seen: Barrier<CleanupEv> = Barrier::new(|c: &CleanupEv| c.0 == 7);
     let reached = Rc::new(Cell::new(false));
     let reached2 = reached.clone();
     sim.client("h", async move {
@@ -830,6 +855,7 @@ fn fs_panic_here(sc: &Scenario) -> Option<Violation> {
             *bcell2.borrow_mut() = Some(Barrier::build(reaction(react_no), move |c: &FsCorruption| matches && c.path.ends_with("data")));
         }
         sfs::write("/data", b"0123456789abcdef")?;
+        let _cleanup = Cleanup(7);
         match style {
             0 => {
                 let _ = sfs::read("/data")?;
@@ -885,7 +911,65 @@ fn fs_panic_here(sc: &Scenario) -> Option<Violation> {
     };
     *bcell.borrow_mut() = None;
     drop(sim);
-    v
+    if v.is_some() {
+        return v;
+    }
+    {
+        let w: Waker = Arc::new(Flag(AtomicBool::new(false))).into();
+        let mut n = 0;
+        loop {
+            let fut = cleanup_seen.wait();
+            let mut fut = std::pin::pin!(fut);
+            let mut cx = Context::from_waker(&w);
+            match fut.as_mut().poll(&mut cx) {
+                Poll::Ready(Some(_)) => n += 1,
+                _ => break,
+            }
+        }
+        if n != 1 {
+            return Some(Violation::new(
+                if n == 0 { "TriggerLost" } else { "UnexpectedTriggerReported" },
+                format!("fs mode: the clean-up guard of the reading code fired its trigger once when it was dropped ({}); the live Noop barrier that matches it reported {n} events", if must_panic { "while the injected panic unwound" } else { "on the normal path" }),
+            ));
+        }
+    }
+    // afterwards, on the same thread: another simulation, a Noop barrier, one corrupting read — the event must
+    // be reported as if nothing had happened before
+    let mut b = turmoil::Builder::new();
+    b.rng_seed(sc.seed ^ 1).epoch(std::time::UNIX_EPOCH + std::time::Duration::from_secs(1_600_000_000));
+    b.fs().corruption_probability(1.0);
+    let mut sim = b.build();
+    let mut after: Barrier<FsCorruption> = Barrier::new(|c: &FsCorruption| c.path.ends_with("later"));
+    sim.client("g", async move {
+        sfs::write("/later", b"0123456789abcdef")?;
+        let _ = sfs::read("/later")?;
+        Ok(())
+    });
+    let r = catch(|| {
+        for _ in 0..6 {
+            match sim.step() {
+                Ok(true) => break,
+                Ok(false) => {}
+                Err(e) => return Some(e.to_string()),
+            }
+        }
+        None
+    });
+    if !matches!(r, Ok(None)) {
+        return Some(Violation::new("SimError", format!("fs mode: the simulation after the injected panic failed: {r:?}")));
+    }
+    let noop_waker: Waker = Arc::new(Flag(AtomicBool::new(false))).into();
+    let got = {
+        let fut = after.wait();
+        let mut fut = std::pin::pin!(fut);
+        let mut cx = Context::from_waker(&noop_waker);
+        matches!(fut.as_mut().poll(&mut cx), Poll::Ready(Some(_)))
+    };
+    drop(sim);
+    if !got {
+        return Some(Violation::new("TriggerLost", "fs mode: after a barrier had panicked a corrupting read, the corruption event of a read in the next simulation on this thread was reported to no barrier although a live Noop barrier matches it".to_string()));
+    }
+    None
 }
 
 /// Mode 2: inside a turmoil host (a task driven by a tokio runtime, with its cooperative budget) `n`
